@@ -9,9 +9,21 @@ Natively (replay) it is just `float`.  Do not mix with plain `float` parameters 
 """
 from __future__ import annotations
 
+from vf.track import NoTracing
+
 
 class IeeeFloat(float):
     pass
+
+
+def same(a, b) -> bool:
+    """identity-or-equality (NaN-safe).  Unlike vf.harness.common.same the identity test runs
+    untraced: CrossHair intercepts `is` between symbolic bools and realises both operands (a fork
+    per bool field), which is pointless when the two operands are one and the same object."""
+    with NoTracing():
+        if a is b:
+            return True
+    return a == b or (a != a and b != b)
 
 
 class RealFloat(float):
